@@ -14,6 +14,7 @@ import Ztr.Model.Sched
 import Ztr.Model.Xml
 import Ztr.Model.Discovery
 import Ztr.Model.Streams
+import Ztr.Model.Ordered
 /-!
 Line protocol between the Python harness and the executable model: one JSON object per line in,
 one JSON object per line out.  `op` selects the model component.  Unknown or malformed requests are
@@ -70,6 +71,20 @@ def opLayers (j : Json) : Except String Json := do
     ("order", jNats (Ztr.Layers.orderByBases G ls)),
     ("gather", jNatss (ls.map (Ztr.Layers.gather G))),
     ("keys", Json.arr ((ls.map (fun l => jNatss (Ztr.Layers.sortKey G l))).toArray))]
+
+/-- `ordered_layers`: Runner.ordered_layers over registered names; `regnames` = the keys of tests_by_layer_name
+(code points) in insertion order, `layerOf[i]` = the layer the i-th name resolves to -/
+def opOrderedLayers (j : Json) : Except String Json := do
+  let G ← graphOf j
+  let regs ← J.natss! j "regnames"
+  let lof ← J.nats! j "layerOf"
+  if regs.length ≠ lof.length then throw "ordered_layers: length mismatch"
+  let table := regs.zip lof
+  let f : Ztr.Ordered.Name → Nat := fun n => ((table.find? (fun p => p.1 == n)).map (·.2)).getD 0
+  let r := Ztr.Ordered.orderedLayers G f regs
+  let old := Ztr.Ordered.orderedLayersOld G f regs
+  return Json.mkObj [("yielded", Json.arr (r.map (fun (n, l) => Json.arr #[jNats n, (l : Json)])).toArray),
+    ("old", Json.arr (old.map (fun (n, l) => Json.arr #[jNats n, (l : Json)])).toArray)]
 
 /-- `shuffle`: Shuffle.global_setup on `layers` = [[name code points, [test ids]], …] with the index
 stream `js`; also the seed hand-over. -/
@@ -586,6 +601,7 @@ def dispatch (j : Json) : Except String Json := do
   | "kept_lines" => opKeptLines j
   | "child_report" => opChildReport j
   | "streams" => opStreams j
+  | "ordered_layers" => opOrderedLayers j
   | _ => throw s!"unknown op {op}"
 
 partial def loop (h : IO.FS.Stream) (out : IO.FS.Stream) : IO Unit := do
